@@ -181,7 +181,7 @@ func nullFloatGen(rng *rand.Rand, v reflect.Value, schema string) {
 func fieldSpecs(exactTimes bool) []fieldSpec {
 	i64, i32, i16, i := reflect.TypeOf(int64(0)), reflect.TypeOf(int32(0)), reflect.TypeOf(int16(0)), reflect.TypeOf(int(0))
 	return []fieldSpec{
-		{"int64", i64, append(nullable(`"long"`), nullable(`"int"`)...), intGen(minBits(64))},
+		{"int64", i64, append(append(nullable(`"long"`), nullable(`"int"`)...), `{"type":"long"}`, `["null",{"type":"int"}]`), intGen(minBits(64))},
 		{"int", i, append(nullable(`"long"`), `"int"`), intGen(minBits(64))},
 		{"int32", i32, append(nullable(`"int"`), nullable(`"long"`)...), intGen(minBits(32))},
 		{"int16", i16, append(nullable(`"int"`), `"long"`), intGen(minBits(16))},
@@ -189,14 +189,16 @@ func fieldSpecs(exactTimes bool) []fieldSpec {
 		{"ptr-int32", reflect.PointerTo(i32), []string{`["null","int"]`, `["int","null"]`}, intGen(minBits(32))},
 		{"float32", reflect.TypeOf(float32(0)), append(nullable(`"float"`), nullable(`"double"`)...), plainGen},
 		{"float64", reflect.TypeOf(float64(0)), nullable(`"double"`), plainGen},
-		{"string", reflect.TypeOf(""), nullable(`"string"`), plainGen},
+		{"string", reflect.TypeOf(""), append(nullable(`"string"`), `{"type":"string"}`, `[{"type":"string"},"null"]`), plainGen},
 		{"bytes", reflect.TypeOf([]byte(nil)), nullable(`"bytes"`), plainGen},
 		{"bool", reflect.TypeOf(false), nullable(`"boolean"`), plainGen},
 		{"fixed4", reflect.TypeOf([4]byte{}), []string{`{"type":"fixed","name":"F4","size":4}`, `["null",{"type":"fixed","name":"F4b","size":4}]`}, plainGen},
 		{"fixed0", reflect.TypeOf([0]byte{}), []string{`{"type":"fixed","name":"F0","size":0}`}, plainGen},
 		{"ptr-string", reflect.PointerTo(reflect.TypeOf("")), []string{`["null","string"]`, `["string","null"]`}, plainGen},
 		{"time", timeT, []string{`"string"`, `["null","string"]`, `["string","null"]`, sMicros, sMillis, `"long"`, sDate,
-			`["null",` + sMicros + `]`, `[` + sMillis + `,"null"]`, `["null","long"]`, `[` + sDate + `,"null"]`}, timeGen(exactTimes)},
+			`["null",` + sMicros + `]`, `[` + sMillis + `,"null"]`, `["null","long"]`, `[` + sDate + `,"null"]`,
+			// a primitive may also be written in object form, with or without attributes the library does not know
+			`{"type":"long"}`, `["null",{"type":"long"}]`, `{"type":"long","doc":"nanoseconds"}`, `{"type":"string"}`}, timeGen(exactTimes)},
 		{"ptr-time", reflect.PointerTo(timeT), []string{`["null","string"]`, `["null",` + sMicros + `]`, `[` + sDate + `,"null"]`, `["long","null"]`}, timeGen(exactTimes)},
 		{"null.Int", nullIntT, []string{`["null","long"]`, `["long","null"]`, `["null","int"]`, `["int","null"]`}, intGen(minBits(64))},
 		{"null.Float", nullFloatT, []string{`["null","double"]`, `["double","null"]`, `["null","float"]`, `["float","null"]`}, nullFloatGen},
@@ -210,6 +212,7 @@ type csField struct {
 	spec   fieldSpec
 	schema string
 	wrap   string // "", "array", "map", "record"
+	omit   bool   // the Go field is tagged omitempty (only used with nullable schemas and no wrapper)
 }
 
 // csRecord assembles a struct type and its caller schema from fields.
@@ -228,7 +231,11 @@ func csRecord(fields []csField, name string) (reflect.Type, string) {
 			s = fmt.Sprintf(`{"type":"record","name":"%s_n%d","fields":[{"name":"in","type":%s},{"name":"tail","type":"long"}]}`, name, i, s)
 		}
 		s = strings.ReplaceAll(s, `"name":"F4`, fmt.Sprintf(`"name":"F4_%s_%d`, name, i))
-		sfs[i] = reflect.StructField{Name: fmt.Sprintf("F%d", i), Type: t, Tag: reflect.StructTag(fmt.Sprintf(`json:"f%d"`, i))}
+		tagOpt := ""
+		if f.omit {
+			tagOpt = ",omitempty"
+		}
+		sfs[i] = reflect.StructField{Name: fmt.Sprintf("F%d", i), Type: t, Tag: reflect.StructTag(fmt.Sprintf(`json:"f%d%s"`, i, tagOpt))}
 		parts[i] = fmt.Sprintf(`{"name":"f%d","type":%s}`, i, s)
 	}
 	return reflect.StructOf(sfs), fmt.Sprintf(`{"type":"record","name":"%s","fields":[%s]}`, name, strings.Join(parts, ","))
@@ -258,6 +265,9 @@ func csValue(rng *rand.Rand, t reflect.Type, fields []csField) reflect.Value {
 			f.spec.gen(rng, fv.Field(0), f.schema)
 			fv.Field(1).SetInt(genInt(rng, 64))
 		default:
+			if f.omit && rng.Intn(3) == 0 {
+				continue // the zero value: written as null, read back as the zero value
+			}
 			f.spec.gen(rng, fv, f.schema)
 		}
 	}
@@ -319,11 +329,16 @@ func driveCallerSchemas(c *driverCtx, prop string) error {
 				if wrap != "" && (si+len(sp.class))%2 == 1 && !c.thorough() {
 					continue
 				}
-				fields := []csField{{sp, sch, wrap}, {specs[0], `"long"`, ""}}
-				t, sj := csRecord(fields, fmt.Sprintf("R%d", n))
-				n++
-				for k := 0; k < c.pick(4, 120); k++ {
-					emitCS(c, prop, fmt.Sprintf("%s|%s|%s|%s", prop, sp.class, shortSchema(sch), wrap), sj, t, csValue(c.rng, t, fields), true)
+				for _, omit := range []bool{false, true} {
+					if omit && (wrap != "" || !strings.HasPrefix(sch, "[")) {
+						continue
+					}
+					fields := []csField{{sp, sch, wrap, omit}, {specs[0], `"long"`, "", false}}
+					t, sj := csRecord(fields, fmt.Sprintf("R%d", n))
+					n++
+					for k := 0; k < c.pick(4, 120); k++ {
+						emitCS(c, prop, fmt.Sprintf("%s|%s|%s|%s%s", prop, sp.class, shortSchema(sch), wrap, map[bool]string{true: "omitempty"}[omit]), sj, t, csValue(c.rng, t, fields), true)
+					}
 				}
 			}
 		}
@@ -334,7 +349,10 @@ func driveCallerSchemas(c *driverCtx, prop string) error {
 		fields := make([]csField, nf)
 		for j := range fields {
 			sp := specs[c.rng.Intn(len(specs))]
-			fields[j] = csField{sp, sp.schemas[c.rng.Intn(len(sp.schemas))], []string{"", "", "", "array", "map", "record"}[c.rng.Intn(6)]}
+			fields[j] = csField{sp, sp.schemas[c.rng.Intn(len(sp.schemas))], []string{"", "", "", "array", "map", "record"}[c.rng.Intn(6)], false}
+			if fields[j].wrap == "" && strings.HasPrefix(fields[j].schema, "[") && c.rng.Intn(3) == 0 {
+				fields[j].omit = true
+			}
 		}
 		t, sj := csRecord(fields, fmt.Sprintf("M%d", i))
 		emitCS(c, prop, fmt.Sprintf("%s|mixed|%d-fields", prop, nf), sj, t, csValue(c.rng, t, fields), true)
@@ -361,7 +379,7 @@ func driveC19(c *driverCtx) error {
 		T time.Time `json:"t"`
 	}
 	typ := reflect.TypeOf(T{})
-	schemas := []string{sDate, sMillis, sMicros, `"long"`}
+	schemas := []string{sDate, sMillis, sMicros, `"long"`, `{"type":"long"}`, `{"type":"long","doc":"nanoseconds since the epoch"}`}
 	for _, sch := range schemas {
 		sj := `{"type":"record","name":"T","fields":[{"name":"t","type":` + sch + `}]}`
 		s, err := avro.SchemaFromString(sj)
